@@ -40,7 +40,7 @@ huge_floats = st.sampled_from([1e300, -1e300, 1e-300, -1e-300, 1e200, 1.5e-200, 
 
 @st.composite
 def el_config(draw):
-    kind = draw(st.sampled_from(["Count", "Sum", "DSum", "Mean", "VMC", "Vectorize",
+    kind = draw(st.sampled_from(["Count", "Sum", "DSum", "Mean", "VMC", "Vectorize", "VectMixed",
                                  "StoreFilled", "GroupBy", "Histogram", "DSum", "Histogram"]))
     cfg = {"el": kind}
     if kind == "Count":
@@ -56,8 +56,13 @@ def el_config(draw):
         cfg["inner"] = draw(st.sampled_from(["Sum", "DSum", "Mean", "Count"]))
         cfg["dim"] = draw(st.integers(1, 3))
         cfg["list_form"] = draw(st.booleans())
+    elif kind == "VectMixed":
+        # a list of different accumulators: their compute() may yield different numbers of results
+        cfg["inners"] = draw(st.lists(st.sampled_from(["Sum", "Store1", "MeanPass", "Store1"]), min_size=1, max_size=3))
     elif kind == "StoreFilled":
         cfg["group"] = draw(st.booleans())
+    elif kind == "GroupBy":
+        cfg["args"] = draw(st.sampled_from(["default", "default", "merge_nothing", "merge_nothing_list"]))
     elif kind == "Histogram":
         dim = draw(st.sampled_from([1, 1, 2]))
         edges = []
@@ -79,6 +84,8 @@ def data_strat(cfg, numbers):
     kind = cfg["el"]
     if kind == "Vectorize":
         return st.lists(numbers, min_size=cfg["dim"], max_size=cfg["dim"])
+    if kind == "VectMixed":
+        return st.lists(numbers, min_size=len(cfg["inners"]), max_size=len(cfg["inners"]))
     if kind == "Histogram":
         def coord(e):
             return st.one_of(st.sampled_from(e), st.floats(e[0] - 1, e[-1] + 1, allow_nan=False),
@@ -162,9 +169,21 @@ def build(cfg):
         if cfg["list_form"]:
             return Vectorize([_inner(cfg["inner"]) for _ in range(cfg["dim"])])
         return Vectorize(_inner(cfg["inner"]), dim=cfg["dim"])
+    if k == "VectMixed":
+        mk = {"Sum": Sum, "Store1": lambda: StoreFilled(yield_as_a_group=False), "MeanPass": lambda: Mean(pass_on_empty=True)}
+        return Vectorize([mk[i]() for i in cfg["inners"]])
     if k == "StoreFilled":
         return StoreFilled(yield_as_a_group=cfg["group"])
     if k == "GroupBy":
+        a = cfg.get("args", "default")
+        if a == "merge_nothing":
+            return GroupBy("", merge=tuple())
+        if a == "merge_nothing_list":
+            return GroupBy(merge=[])
+        if a == "by_a":
+            return GroupBy("a")
+        if a == "by_a_merge_b":
+            return GroupBy("", merge=("b",))
         return GroupBy()
     if k == "Histogram":
         edges = copy.deepcopy(cfg["edges"])
@@ -278,6 +297,19 @@ def expected(cfg, filled):
                     return False
             return True
         return ("values", [(ok, last_ctx)])
+    if k == "VectMixed":
+        cols = []
+        for i, inner in enumerate(cfg["inners"]):
+            col = [d[i] for d in datas]
+            if inner == "Sum":
+                cols.append([_fold(col)])
+            elif inner == "Store1":
+                cols.append(list(col))
+            else:
+                cols.append([float(_fold(col)) / float(n)] if n else [])
+        rows = max(len(c) for c in cols)
+        # the longest output, the others padded with None (documented)
+        return ("values", [(tuple(c[j] if j < len(c) else None for c in cols), last_ctx) for j in range(rows)])
     if k == "StoreFilled":
         vals = [_val(d, c) for d, c in filled]
         if cfg["group"]:
@@ -285,8 +317,19 @@ def expected(cfg, filled):
         return ("raw", vals)
     if k == "GroupBy":
         vals = [_val(d, c) for d, c in filled]
-        # default arguments: everything in one group
-        return ("raw", [vals] if vals else [])
+        if cfg.get("args", "default") == "default":
+            # default arguments: everything in one group
+            return ("raw", [vals] if vals else [])
+        # merge nothing: the key is the entire context; groups in order of first arrival
+        keys, groups = [], []
+        for i, (d, c) in enumerate(filled):
+            key = c or {}
+            if key in keys:
+                groups[keys.index(key)].append(i)
+            else:
+                keys.append(key)
+                groups.append([i])
+        return ("raw_groups", groups)
     if k == "Histogram":
         edges = cfg["edges"]
         init = 0 if cfg["init"] == "plain" else cfg["init_val"]
@@ -392,6 +435,12 @@ def _compare(cfg, got, exp, raw_real, what, filled):
         raise Violation("accumulator-unexpected-exception",
                         "%s after %s: %s" % (cfg, short(filled), got[1].__name__))
     res = got[1]
+    if exp[0] == "raw_groups":
+        want = [[raw_real[i] for i in idxs] for idxs in exp[1]]
+        if len(res) != len(want) or any(len(g) != len(w) or any(a is not b for a, b in zip(g, w)) for g, w in zip(res, want)):
+            raise Violation("accumulator-does-not-yield-filled-values",
+                            "%s: groups %s, expected the filled values grouped as %s; filled %s" % (cfg, _describe(res), exp[1], short(filled)))
+        return
     if exp[0] == "raw":
         # StoreFilled / GroupBy: the filled values themselves
         want = exp[1]
